@@ -6,6 +6,7 @@ from vlib import core
 from vlib.registry import COMMON_NOTE
 
 # 0 = the pinned upstream `sample` (finding F18 present), 1 = with proposed_fixes/C18-F18.patch applied
+# bit mask: 1 = F18 max-shift (in /repo since e3725cd97), 2 = proposed_fixes/C18-F18c.patch (greedy all -Inf -> error)
 FIX = int(os.environ.get("VERIF_C18_FIX", "1"))  # F18 fixed in /repo (e3725cd97)
 
 REGISTRATION = {
@@ -22,16 +23,22 @@ REGISTRATION = {
             "zero-probability entry, never an index panic; the picked token lies in minP(topP(topK)) and comes from a "
             "logit that is not -Inf; a history of calls on one sampler has no state but the generator (the i-th result "
             "equals the single-call result with the PCG advanced by the number of drawing calls before it) and is a "
-            "function of (seed, params, logits); PCG-DXSM modelled bit-exactly. The same generic code is run at IEEE "
+            "function of (seed, params, logits); PCG-DXSM modelled bit-exactly; with a grammar, a call returns either the "
+            "accepted first pick or exactly Sample on a fresh token list from the original logits with the grammar mask "
+            "applied and a new random number, so the retry is admissible w.r.t. the masked logits and accepted by the "
+            "grammar. The same generic code is run at IEEE "
             "Float32 by the oracle and compared with the real package on histories of calls on one real Sampler: stage by "
-            "stage on bit patterns, per call with the threaded random number, and the whole history through the model. "
+            "stage on bit patterns, per call with the threaded random number, and the whole history through the model; "
+            "the grammar path is driven with the REAL llama.cpp grammar sampler (GBNF grammars over a synthetic vocab-only "
+            "GGUF the driver writes; the accepted id set is probed from the real grammar before every call and given to "
+            "the model as data; draws counted through a wrapping rand.Source). "
             "What IEEE-754 must provide is checked as decidable contracts on every call, and every clause of the "
             "property is evaluated on the real Sample result of every call, on the float32 values the real transforms "
             "produced.",
     "design_ref": "DESIGN.md §5 C18",
     "note": COMMON_NOTE + "Partial by construction: IEEE-754 rounding/overflow and math.Exp are outside the model "
-            "(exp values are taken from the run; contracts re-checked per run); the grammar (cgo llama.cpp) is "
-            "modelled as an arbitrary mask and not exercised (no vocabulary file offline); slices.SortFunc's order "
+            "(exp values are taken from the run; contracts re-checked per run); the grammar's own state machine "
+            "(llama.cpp) is not modelled: its accepted sets are data probed from the real grammar; slices.SortFunc's order "
             "inside groups of equal logits is not modelled (compared modulo that order); the heap branch of topK is "
             "mirrored exactly and proved to return k tokens of its input, but that they are the k largest in "
             "descending order is validated per run (IsTopK contract), not proved.",
@@ -46,7 +53,7 @@ THEOREMS = ["OllamaVerif.C18." + t for t in (
     "deterministic", "hist_nth", "Sample_indep_r", "stream_of_seed", "grammar_step_spec",
     "grammar_retry_admissible_partial", "grammar_retry_admissible_fixed_partial", "grammar_retry_greedy",
     "masked_not_neginf_accepted", "maskLogits_get", "F18_nan_instead_of_token", "F18_guard_fails",
-    "F18b_greedy_keeps_leading_nan", "zOps_laws")] + [
+    "F18b_greedy_keeps_leading_nan", "F18c_greedy_retry_returns_rejected", "zOps_laws")] + [
     "OllamaVerif.Sampler.pick_spec", "OllamaVerif.Sampler.afterTopK_spec", "OllamaVerif.Sampler.afterTopK_spec_fix", "OllamaVerif.Sampler.bsearch_spec",
 ]
 OVERLAY = {"sample/zz_verif_c18_test.go": "sample/zz_verif_c18_test.go",
@@ -101,7 +108,7 @@ def run(ctx):
         "the per-run contracts (scale/softmax order preservation, -Inf->0, max->positive, monotone cumulative sums, "
         "r*total<=total) are evaluated on the bit patterns of every sampled run, not proved",
         "math.Exp is not modelled: the oracle uses the values the run produced",
-        "grammar path (cgo) modelled as mask-then-resample, not exercised",
+        "llama.cpp grammar state machine not modelled: accepted id sets are probed from the real grammar per call",
     ]
     if ctx.thorough:
         ctx.leanchecker(MODULES)
